@@ -553,11 +553,11 @@ def get_terminal_name_version() -> tuple[str | None, str | None]:
             read_tty()  # The rest of the response to DA1
 
     match = response and ctlseqs.XTVERSION_re.match(response.decode())
-    name, version = (
-        match.groups()
-        if match
-        else map(os.environ.get, ("TERM_PROGRAM", "TERM_PROGRAM_VERSION"))
-    )
+    if match:
+        name, *version = match.groups()  # version: in parentheses | after a space
+        version = version[0] or version[1]
+    else:
+        name, version = map(os.environ.get, ("TERM_PROGRAM", "TERM_PROGRAM_VERSION"))
 
     return (name and name.lower(), version)
 
